@@ -36,9 +36,12 @@ TRUSTED = [
     "contains its own path)",
 ]
 ASSUMPTIONS = [
-    "local filesystem only; regular files and directories, no symlinks, no hidden (dot) names, no permission errors",
+    "local filesystem only, no permission errors; every top-level directory contains a symlink to a directory outside "
+    "the tree, whose members count as members of the Dir / FileSet under the path through the link (what a recursive glob "
+    "enumerates: symlinks followed, dot names skipped); link targets are never named directly (no aliasing); after "
+    "Dir.rmdir(recursive) the link itself is gone and the path is re-created as a real directory by later writes",
     "file paths and directory paths are disjoint (a File is never pointed at a directory); all paths lie in a fixed "
-    "universe of 17 file paths under 3 top-level directories with one sub-directory each",
+    "universe of 23 file paths under 3 top-level directories with one real and one symlinked sub-directory each",
     "Dir.rmdir is exercised with recursive=True only; Dir.copy_to between non-overlapping or identical directories",
     "FileSet patterns are `<dir>/*` and `<dir>/**`",
     "integer mtimes (set explicitly); two writes may deliberately receive the same mtime",
@@ -76,7 +79,19 @@ SUBS = [("d1", "s"), ("d2", "s"), ("d3", "s")]
 U = [("f",), ("g",)]
 for _d in TOPS:
     U += [_d + (x,) for x in "abc"] + [_d + ("s", x) for x in "ac"]
+# every top-level directory has a symlinked sub-directory dX/l -> <ext>/LdX (target outside the tree); its members are
+# named through the link (what glob enumerates); a hidden file d1/.h exists and is never a member
+for _d in TOPS:
+    U += [_d + ("l", x) for x in "ac"]
 DATA = [b"", b"a", b"b", b"ab", b"ba", b"abc", b"\x00\xff", b"hello world"]
+
+
+def prepare_tree(w):
+    import os
+    for d in TOPS:
+        os.makedirs(os.path.join(w.ext, "L" + d[0]))
+        w.link(d + ("l",), os.path.join(w.ext, "L" + d[0]))
+    w.xwrite(("d1", ".h"), b"hidden", 900)
 REDUN_WRITES = {"write", "append", "copy", "stage", "unstage", "mkdir", "rmdir", "dcopy", "dstage", "dunstage"}
 
 
@@ -196,6 +211,10 @@ CORPUS = [
     [("new", ("dir", "plain", ("d1",))), ("new", ("fset", "plain", ("d1",), False)), ("new", ("fset", "content", ("d1",), True)),
      ("xwrite", ("d1", "a"), b"a", 1001), ("hash", 0), ("hash", 1), ("hash", 2), ("xwrite", ("d1", "s", "c"), b"a", 1001),
      ("valid", 0), ("valid", 1), ("valid", 2), ("xremove", ("d1", "a")), ("valid", 0), ("valid", 1), ("valid", 2)],
+    # members behind a symlinked sub-directory
+    [("new", ("dir", "plain", ("d1",))), ("new", ("dir", "content", ("d2",))), ("new", ("file", "plain", ("d1", "l", "a"))),
+     ("write", 2, b"ab", 1001), ("hash", 0), ("xwrite", ("d1", "l", "a"), b"abc", 1002), ("valid", 0), ("update", 0), ("xremove", ("d1", "l", "a")),
+     ("valid", 0), ("dcopy", 0, 1, False, 1003), ("valid", 1), ("xwrite", ("d2", "l", "c"), b"c", 1004), ("valid", 1), ("rmdir", 0), ("valid", 0)],
     # immutable classes
     [("new", ("file", "imm", ("f",))), ("new", ("dir", "imm", ("d1",))), ("new", ("fset", "imm", ("d1",), True)),
      ("hash", 0), ("hash", 1), ("hash", 2), ("xwrite", ("f",), b"a", 1001), ("xwrite", ("d1", "a"), b"a", 1001),
@@ -404,6 +423,7 @@ def oracle(ctx, w, objs, specs, op, out, case, tables):
 def run_case(ctx, w, ops, model_replies, label):
     """Replay one case on the real classes; compare with the model replies (op reply, dump) pairwise."""
     w.reset()
+    prepare_tree(w)
     w.struct_of.clear()
     w.bytes_of.clear()
     objs, specs, tables = [], [], {}
